@@ -52,3 +52,30 @@ package cors
 //@
 //@   ensures C16.fail_uniform: old(m.icfg) != nil && !old(m.debug) && old(IsPreflight(r)) && !old(PreflightOK(old(m.icfg), r, false)) ==> status() == 403 && NoCORSHeaderChanged(w)
 //@   ensures C16.success_values: old(m.icfg) != nil && !old(m.debug) && old(IsPreflight(r)) ==> (Changed(w, "Access-Control-Allow-Methods") ==> get(hdr(w), "Access-Control-Allow-Methods") === headers.WildcardSgl || get(hdr(w), "Access-Control-Allow-Methods") === old(ACRMSglOf(r))) && (Changed(w, "Access-Control-Allow-Headers") ==> get(hdr(w), "Access-Control-Allow-Headers") === headers.WildcardSgl || get(hdr(w), "Access-Control-Allow-Headers") === headers.WildcardAuthSgl || get(hdr(w), "Access-Control-Allow-Headers") === old(ACRHOf(r))) && (Changed(w, "Access-Control-Allow-Private-Network") ==> get(hdr(w), "Access-Control-Allow-Private-Network") === headers.TrueSgl) && (Changed(w, "Access-Control-Allow-Origin") ==> get(hdr(w), "Access-Control-Allow-Origin") === headers.WildcardSgl || get(hdr(w), "Access-Control-Allow-Origin") === old(OriginSglOf(r))) && (Changed(w, "Access-Control-Allow-Credentials") ==> get(hdr(w), "Access-Control-Allow-Credentials") === headers.TrueSgl) && (Changed(w, "Access-Control-Max-Age") ==> get(hdr(w), "Access-Control-Max-Age") === old(m.icfg).acma)
+
+//@ func newInternalConfig
+//@   props C04 C05 C06 C08 C09 C15 C17
+//@   trusted TEMPORARY until L6 (validators) is under contract
+//@   ensures cfg == nil ==> result0 == nil && result1 == nil
+//@   ensures result1 != nil ==> result0 == nil
+//@   ensures cfg != nil && result1 == nil ==> result0 != nil && result0 > brk()
+
+//@ func NewMiddleware
+//@   props C04 C06 C09 C17
+//@   ensures C04.nil_on_error: result1 != nil ==> result0 == nil
+//@   ensures C09.new_debug_off: result1 == nil ==> result0 != nil && !result0.debug && result0.icfg != nil
+
+//@ func Middleware.Reconfigure
+//@   props C06 C08 C09 C17
+//@   requires m != nil
+//@   ensures C08.unchanged_on_error: result != nil ==> m.icfg == old(m.icfg) && m.debug == old(m.debug)
+//@   ensures C08.nothing_written_on_error: result != nil ==> sameheap("F!cors_Middleware!icfg") && sameheap("F!cors_Middleware!debug") && nevents("Lock") == 0
+//@   ensures C09.reconfigure_nil: result == nil && cfg == nil ==> m.icfg == nil && !m.debug
+//@   ensures C09.reconfigure_keeps_debug: result == nil && cfg != nil ==> m.icfg != nil && m.debug == old(m.debug)
+//@   ensures C09.inv_preserved: (old(m.icfg) == nil ==> !old(m.debug)) ==> (m.icfg == nil ==> !m.debug)
+
+//@ func Middleware.SetDebug
+//@   props C09 C17
+//@   requires m != nil
+//@   ensures C09.setdebug: m.debug == (b && old(m.icfg) != nil) && m.icfg == old(m.icfg)
+//@   ensures C09.inv_preserved: m.icfg == nil ==> !m.debug
